@@ -426,3 +426,150 @@ func depthMatrix() []config {
 	}
 	return cs
 }
+
+// ---- layer K: several creates in one call tree ----
+//
+// CREATE and CREATE2 x a small family of init codes (no jump, jump to a low target, jump to a target beyond
+// position 40, jump into PUSH data that holds a JUMPDEST byte, jump to a valid JUMPDEST where a sibling has PUSH
+// data, init code returning runtime code that jumps and is CALLed afterwards, init code that itself CREATEs) in
+// ordered pairs and triples inside one frame, with and without a jump of the creating frame itself. Run through
+// Call (the program is a factory contract) and through evm.Create (the program is itself init code at depth 0).
+
+// storeCode writes code to memory offset 0.. in 32-byte words (the last word right-padded with zeroes).
+func storeCode(code []byte) []byte {
+	var out []byte
+	for off := 0; off < len(code); off += 32 {
+		w := make([]byte, 32)
+		copy(w, code[off:])
+		out = append(out, cat(pushN(w), push1(byte(off)), op(evm.MSTORE))...)
+	}
+	return out
+}
+
+// hop is PUSH1 t; JUMP; JUMPDEST placed at position at (t = the JUMPDEST's own position).
+func hop(at int) []byte {
+	if at+3 > 255 {
+		panic("hop")
+	}
+	return []byte{byte(evm.PUSH1), byte(at + 3), byte(evm.JUMP), byte(evm.JUMPDEST)}
+}
+
+type initCode struct {
+	name    string
+	code    []byte
+	runtime bool // returns runtime code: CALL the created address afterwards
+}
+
+func createElem(kind evm.OpCode, in initCode, salt byte) instr {
+	c := storeCode(in.code)
+	if kind == evm.CREATE2 {
+		c = cat(c, push1(salt), push1(byte(len(in.code))), push1(0), push1(0), op(evm.CREATE2))
+	} else {
+		c = cat(c, push1(byte(len(in.code))), push1(0), push1(0), op(evm.CREATE))
+	}
+	name := fmt.Sprintf("%v(%s)", kind, in.name)
+	if in.runtime {
+		// [addr] -> CALL(gas, addr, 0, 0, 0, 0, 0) -> [addr, status] -> POP
+		c = cat(c, push1(0), push1(0), push1(0), push1(0), push1(0), op(evm.DUP6), op(evm.GAS), op(evm.CALL), op(evm.POP))
+		name += ";CALL(created)"
+	}
+	return instr{name, cat(c, op(evm.POP))}
+}
+
+func initFamily() (base, nested []initCode) {
+	jumpFar := cat(push1(0x30), op(evm.JUMP))
+	for len(jumpFar) < 0x30 {
+		jumpFar = append(jumpFar, byte(evm.JUMPDEST))
+	}
+	jumpFar = append(jumpFar, byte(evm.JUMPDEST), byte(evm.STOP))
+	rt := cat(hop(0), push1(1), push1(0), op(evm.SSTORE), op(evm.STOP)) // runtime code that jumps, then slot0 := 1
+	retRT := func(prefix []byte) []byte {
+		return cat(prefix, pushN(rt), push1(0), op(evm.MSTORE), push1(byte(len(rt))), push1(byte(32-len(rt))), op(evm.RETURN))
+	}
+	base = []initCode{
+		{"nojump", cat(push1(1), push1(0), op(evm.SSTORE), op(evm.STOP)), false},
+		{"jump-low", cat(hop(0), op(evm.STOP)), false},
+		{"jump-far@0x30", jumpFar, false},
+		{"jump-into-push-data@4", cat(push1(4), op(evm.JUMP), push1(byte(evm.JUMPDEST)), op(evm.STOP)), false},
+		{"jump-to-jumpdest@4", cat(push1(4), op(evm.JUMP), op(evm.STOP), op(evm.JUMPDEST), op(evm.STOP)), false},
+		{"returns-jumping-runtime", retRT(nil), true},
+		{"jumps,returns-jumping-runtime", retRT(hop(0)), true},
+	}
+	// init code that itself CREATEs a child, optionally jumping before and/or after
+	for _, child := range base[1:4] {
+		for _, before := range []bool{false, true} {
+			for _, after := range []bool{false, true} {
+				var c []byte
+				n := "nested["
+				if before {
+					c = append(c, hop(len(c))...)
+					n += "jump;"
+				}
+				c = append(c, createElem(evm.CREATE, child, 0).code...)
+				n += "CREATE(" + child.name + ")"
+				if after {
+					c = append(c, hop(len(c))...)
+					n += ";jump"
+				}
+				c = append(c, byte(evm.STOP))
+				nested = append(nested, initCode{n + "]", c, false})
+			}
+		}
+	}
+	return
+}
+
+func createPrograms() []callProg {
+	base, nested := initFamily()
+	kinds := []evm.OpCode{evm.CREATE, evm.CREATE2}
+	elems := func(fam []initCode, salt byte) []instr {
+		var out []instr
+		for _, k := range kinds {
+			for _, in := range fam {
+				out = append(out, createElem(k, in, salt))
+			}
+		}
+		return out
+	}
+	all := append(append([]initCode{}, base...), nested...)
+	var out []callProg
+	emit := func(parts ...instr) {
+		for _, own := range []bool{false, true} { // does the creating frame itself jump first?
+			var code []byte
+			var names []string
+			if own {
+				code = hop(0)
+				names = append(names, "jump")
+			}
+			for _, p := range parts {
+				code = append(code, p.code...)
+				names = append(names, p.name)
+			}
+			out = append(out, callProg{strings.Join(names, " ; "), code, false})
+		}
+	}
+	for _, a := range elems(all, 0) {
+		emit(a)
+	}
+	for _, a := range elems(all, 0) {
+		for _, b := range elems(all, 1) {
+			emit(a, b)
+		}
+	}
+	for _, a := range elems(base, 0) {
+		for _, b := range elems(base, 1) {
+			for _, c := range elems(base, 2) {
+				emit(a, b, c)
+			}
+		}
+	}
+	return out
+}
+
+func createMatrix() []config {
+	return []config{
+		{entry: entCall, gas: 10000000, value: 1},
+		{entry: entCreate, gas: 10000000, value: 0},
+		{entry: entCall, gas: 200000, value: 0},
+	}
+}
